@@ -333,3 +333,31 @@ Definition c_userinfo (st : server) (now : Z) (t : token) : option bs :=
     else if has_elems (x_aud x) && negb (mem_bs (s_userinfo st) (x_aud x)) then None
     else Some (x_username x)
   else None.
+
+(* ---------------------------------------------------------------- the identity of a server (C04: peer instances) *)
+
+(* jwt.go idpGetIssuer: "https://" + HostIdentity, followed by the service address unless that is
+   ":443".  This string is what "this server" means in the iss / aud claims of session cookies, CLI
+   tokens and storage records, when they are minted and when they are checked: a function of the
+   instance's host identity and listen address, of nothing else in the configuration. *)
+Definition issuer_of (host addr : bs) : bs :=
+  b "https://" ++ host ++ (if bs_eqb addr (b ":443") then [] else addr).
+
+(* the server record of the instance configured with (host_identity, http_address), keys as given *)
+Definition server_at (host addr userinfo_path : bs) (keys : list (N * N)) (signer alg : N) : server :=
+  {| s_issuer := issuer_of host addr; s_keys := keys; s_signer := signer; s_signer_alg := alg;
+     s_userinfo := issuer_of host addr ++ userinfo_path |}.
+
+(* A PEER is another instance of the same deployment: a server record of its own (own host identity,
+   own signer).  Members of a cluster list each other's signer keys in keymaster_public_keys_filename:
+   [trusts_signer st pe] says that st verifies what pe signs. *)
+Definition trusts_signer (st pe : server) : bool :=
+  trusted_key st (s_signer pe) && allowed_alg st (s_signer_alg pe).
+
+(* "names this server as issuer and (first) audience", on the raw claims (boolean form of
+   Proofs/Tokens.v names_server) *)
+Definition names_server_b (st : server) (c : claimset) : bool :=
+  match rd_str "iss" c, rd_list "aud" c with
+  | Some i, Some (a :: _) => bs_eqb i (s_issuer st) && bs_eqb a (s_issuer st)
+  | _, _ => false
+  end.
